@@ -2,6 +2,7 @@ import Driver.Util
 import Driver.Ops.Integer
 import Driver.Ops.L2
 import Driver.Ops.L2Oer
+import Driver.Ops.L2Uper
 import Driver.Ops.Real
 import Driver.Ops.OidTime
 import Driver.Ops.Fixer
@@ -45,7 +46,8 @@ def step (line : String) : String :=
 /-- L2 sub-handlers (one per transfer syntax) -/
 def l2handlers : List Driver.Ops.L2.SubHandler := [
   Driver.Ops.L2.derHandler,
-  Driver.Ops.L2Oer.oerHandler
+  Driver.Ops.L2Oer.oerHandler,
+  Driver.Ops.L2Uper.uperHandler
 ]
 
 /-- L2 lines carry state (the current module): `l2mod <module-sexp>` selects it,
